@@ -326,7 +326,39 @@ def check_graph(spec: dict, orders: list[list[int]], tag: str) -> tuple[list[dic
                 viols.append(core.viol(what, mech, point=point, got=payload, spec=spec, order=order, tag=tag))
         if len(viols) > 6:
             break
+    if ref_missing and not ref_cycle and not viols:
+        # the same graph reached by a history: every name is declared (the missing ones as parameters), the model is
+        # evaluated, and then those parameters are removed again - in bulk (a list, a generator) or one by one
+        import copy
+
+        names = sorted({n for lst in ref_missing.values() for n in lst})
+        sp = copy.deepcopy(spec)
+        sp["components"] = [{"kind": "parameter", "name": n, "value": 1.5} for n in names] + sp["components"]
+        how = ["bulk_list", "bulk_generator", "one_by_one"][_STATE["calls"] % 3]
+        try:
+            model = rm.build(sp)
+            model.get_args()
+            model.get_right_hand_side()
+            if how == "bulk_list":
+                model.remove_parameters(list(names))
+            elif how == "bulk_generator":
+                model.remove_parameters(n for n in names)
+            else:
+                for n in names:
+                    model.remove_parameter(n)
+        except Exception:  # noqa: BLE001
+            model = None  # (a component kind that cannot be evaluated with a placeholder value: nothing to observe)
+        if model is not None:
+            HISTORY[how] = HISTORY.get(how, 0) + 1
+            for point, (kind, payload) in _observe(model).items():
+                if not (kind == "missing" and _missing_msg_ok(payload, ref_missing)):
+                    what = "numbers returned after the parameters a component names were removed" if kind == "values" else f"missing names not reported exactly after their removal ({kind})"
+                    viols.append(core.viol(what, None, point=point, got=payload, expected=ref_missing, spec=spec, removal=how, tag=tag))
+                    break
     return viols, info
+
+
+HISTORY: dict[str, int] = {}
 
 
 def _missing_msg_ok(msg: str, expected: dict[str, list[str]]) -> bool:
@@ -442,6 +474,9 @@ def run_case(case: dict) -> dict:
             out.append(v)
     counters["sort_loop_iterations_monitored"] = int(_STATE["armed"])
     counters["max_iter_ratio_x1000"] = 0
+    for how_, n_ in HISTORY.items():
+        counters[f"names removed after an evaluation ({how_})"] = n_
+    HISTORY.clear()
     res = core.result(sig=sig, nontrivial=True, sigs=sigs, violations=out, counters=counters, sample=sample,
                       info={"max_ratio": _STATE["max_ratio"], "n_graph_orders": counters["graph_x_order"]})
     return res
